@@ -397,6 +397,28 @@ class SVEval:
                         aenv[b] = ("var", b)
             elif pat.get("k") == "ident":
                 aenv[pat["name"]] = sv_subj
+            elif pat.get("k") == "tuple":
+                se = subj
+                while se.get("k") in ("paren", "ref"):
+                    se = se["expr"]
+                if se.get("k") == "tuple" and len(se["elems"]) == len(pat["elems"]):
+                    # `match (a, b) { (Some(x), None) => .. }`: each binding names (the payload of) its own component
+                    for sub_p, sub_e in zip(pat["elems"], se["elems"]):
+                        sp_ = sub_p
+                        while sp_.get("k") in ("ref", "paren") and sp_.get("pat") is not None:
+                            sp_ = sp_["pat"]
+                        binds = pat_bindings(sp_)
+                        if not binds:
+                            continue
+                        sub_sv = self.first(sub_e, o)
+                        if sp_.get("k") in ("tstruct", "struct") and "::".join(sp_.get("path", [])) in ("Some", "Ok"):
+                            for b in binds:
+                                aenv[b] = self.some_payload(sub_e, sub_sv, env)
+                        elif sp_.get("k") == "ident":
+                            aenv[sp_["name"]] = sub_sv
+                        else:
+                            for b in binds:
+                                aenv[b] = ("var", b)
             if arm.get("guard"):
                 cond += " if " + expr_text(arm["guard"])
             for (c, v, r, en) in self.eval(arm["body"], Outcome(o.conds, aenv)):
@@ -587,11 +609,15 @@ def cond_holds(cond, asg):
         c = c[4:-1].strip()
         neg = not neg
     res = None
+    if isinstance(asg.get(c), bool):
+        res = asg[c]
     m = re.match(r"^if-let\s+(.+?)\s+=\s+(.+)$", c)
     if m:
         st_, subj = _pat_state(m.group(1)), _norm_subject(m.group(2))
         if st_ and subj in asg:
             res = asg[subj] == st_
+        elif m.group(1).strip().startswith("("):
+            c = "%s matches %s" % (m.group(2).strip(), m.group(1).strip())      # tuple pattern: same as a one-armed match
     if res is None:
         m = re.match(r"^(.+?)\s+is\s+(Some|None)$", c)
         if m and _norm_subject(m.group(1)) in asg:
